@@ -14,7 +14,7 @@ git -C /repo worktree remove --force "$W" 2>/dev/null; rm -rf "$W"; git -C /repo
 git -C /repo worktree add -q --detach "$W" HEAD || exit 2
 cd "$W" || exit 2
 fin() { cd /; git -C /repo worktree remove --force "$W" 2>/dev/null; rm -rf "$W"; }
-if ! git apply "$SRC/patch.diff"; then echo "VERIFY $ID: patch does not apply"; fin; exit 1; fi
+if ! git apply "$SRC/patch.diff" 2>/dev/null && ! git apply -3 "$SRC/patch.diff"; then echo "VERIFY $ID: patch does not apply"; fin; exit 1; fi
 if git diff --name-only | grep -qv '^src/'; then echo "VERIFY $ID: note: patch touches files outside src/: $(git diff --name-only | grep -v '^src/' | tr '\n' ' ')"; fi
 suite_out="$(cargo test --workspace --no-fail-fast --offline 2>&1)"; suite_rc=$?
 suite_sum="$(echo "$suite_out" | grep '^test result' | awk '{p+=$4; f+=$6} END{print p" passed "f" failed"}')"
@@ -24,7 +24,7 @@ for f in "$SRC"/demo/*.rs; do [ -f "$f" ] || continue; cp "$f" tests/; tests="$t
 if [ -z "$tests" ]; then echo "VERIFY $ID: no rust demo; manual verification needed"; fin; exit 3; fi
 with_out="$(cargo test --offline $tests 2>&1)"; with_rc=$?
 with_sum="$(echo "$with_out" | grep '^test result' | awk '{p+=$4; f+=$6} END{print p" passed "f" failed"}')"
-git apply -R "$SRC/patch.diff" || { echo "VERIFY $ID: cannot revert"; fin; exit 2; }
+git reset -q --hard HEAD || { echo "VERIFY $ID: cannot revert"; fin; exit 2; }
 without_out="$(cargo test --offline $tests 2>&1)"; without_rc=$?
 without_sum="$(echo "$without_out" | grep '^test result' | awk '{p+=$4; f+=$6} END{print p" passed "f" failed"}')"
 fin
